@@ -72,7 +72,15 @@ static void onSegv(int sig, siginfo_t *si, void *ucv)
     for (auto &f : fns) if (f.first.find("libcellml::") == 0) best = std::max(best, f.second);
     std::string names;
     for (auto &f : fns) if (f.second * 2 >= best && f.first.find("libcellml::") == 0) names += (names.empty() ? "" : "+") + f.first;
-    if (names.empty()) names = "libcellml::?";
+    if (names.empty()) { // the recursion is outside the library (e.g. std::regex called by it): name the dominating function, whatever it is
+        int top = 0;
+        std::string fn;
+        for (auto &f : fns) if (f.second > top) { top = f.second; fn = f.first; }
+        size_t lt = fn.find('<');
+        if (lt != std::string::npos) fn.resize(lt); // drop template arguments
+        names = "libcellml-calls::" + (fn.empty() ? std::string("?") : fn);
+        best = top;
+    }
     fprintf(stderr, "==%d==ERROR: AddressSanitizer: stack-overflow (recursion identified by the C01 harness; %d of %d frames)\n    #0 0x0 in %s /repo/src/recursion:0\n", getpid(), best, n, names.c_str());
     emitPartialStats();
     _exit(1);
@@ -160,9 +168,10 @@ struct Group
     std::vector<uint64_t> offset; // prefix sums
     uint64_t total = 0;
     uint64_t modes = 2; // 2: strict and permissive parser; 1: the mode that reads the seed (strict for 2.0, permissive for 1.x)
+    std::vector<std::vector<size_t>> sel; // per seed: the selected deviations (indices into SeedInfo::devs); empty = all
 };
 static bool modeOf(const Group &g, const Seed &s, uint64_t m) { return g.modes == 2 ? m == 0 : !s.legacy; }
-static Group makeGroup(std::function<bool(const Seed &)> pred, bool pairs, uint64_t modes)
+static Group makeGroup(std::function<bool(const Seed &)> pred, bool pairs, uint64_t modes, std::function<bool(const SeedInfo &, const Dev &)> devPred = nullptr)
 {
     Group g;
     g.modes = modes;
@@ -170,7 +179,9 @@ static Group makeGroup(std::function<bool(const Seed &)> pred, bool pairs, uint6
         if (!pred(seeds()[i])) continue;
         g.seedIdx.push_back(i);
         g.offset.push_back(g.total);
-        uint64_t n = pairs ? seedInfo(i).reducedIdx.size() : seedInfo(i).devs.size();
+        g.sel.emplace_back();
+        if (devPred) for (size_t d = 0; d < seedInfo(i).devs.size(); ++d) if (devPred(seedInfo(i), seedInfo(i).devs[d])) g.sel.back().push_back(d);
+        uint64_t n = pairs ? seedInfo(i).reducedIdx.size() : devPred ? g.sel.back().size() : seedInfo(i).devs.size();
         g.total += (pairs ? n * (n - 1) / 2 : n) * modes;
     }
     return g;
@@ -179,11 +190,21 @@ static const Group &groupMathFree() { static Group g = makeGroup([](const Seed &
 static const Group &groupMath() { static Group g = makeGroup([](const Seed &s) { return s.math && s.name != "allmath"; }, false, 1); return g; }
 static const Group &groupPairs() { static Group g = makeGroup([](const Seed &s) { return !s.math && !s.opaque; }, true, 1); return g; }
 
-static size_t locate(const Group &g, uint64_t i, uint64_t &local)
+static size_t locate(const Group &g, uint64_t i, uint64_t &local, size_t *slot = nullptr)
 {
     size_t k = std::upper_bound(g.offset.begin(), g.offset.end(), i) - g.offset.begin() - 1;
     local = i - g.offset[k];
+    if (slot) *slot = k;
     return g.seedIdx[k];
+}
+static const Dev &devOf(const Group &g, size_t slot, const SeedInfo &info, uint64_t n) { return info.devs[g.sel[slot].empty() ? n : g.sel[slot][n]]; }
+// quick selection on the math seeds: the attribute/text family (a) everywhere, and insertions into the token elements
+static bool isTokenElement(const SeedInfo &si, int id) { return id >= 0 && size_t(id) < si.elems.size() && (si.elems[id]->local() == "ci" || si.elems[id]->local() == "cn"); }
+static const Group &groupMathQuick()
+{
+    static Group g = makeGroup([](const Seed &s) { return s.name == "power-units" || s.name == "ode" || s.name == "math-small"; }, false, 1,
+                               [](const SeedInfo &si, const Dev &d) { return d.fam == 'a' || (d.kind == C_INS && isTokenElement(si, d.node)); });
+    return g;
 }
 static std::vector<Doc> withTarget(const Seed &s, const std::string &text)
 {
@@ -194,10 +215,11 @@ static std::vector<Doc> withTarget(const Seed &s, const std::string &text)
 static void runDev1(const Group &g, uint64_t i, Ctx &c)
 {
     uint64_t local;
-    size_t si = locate(g, i, local);
+    size_t slot;
+    size_t si = locate(g, i, local, &slot);
     const Seed &s = seeds()[si];
     const SeedInfo &info = seedInfo(si);
-    const Dev &d = info.devs[local / g.modes];
+    const Dev &d = devOf(g, slot, info, local / g.modes);
     bool strict = modeOf(g, s, local % g.modes);
     int inapp = 0;
     std::string text = deviate(info, {&d}, &inapp);
@@ -208,10 +230,11 @@ static void runDev1(const Group &g, uint64_t i, Ctx &c)
 static json showDev1(const Group &g, uint64_t i)
 {
     uint64_t local;
-    size_t si = locate(g, i, local);
+    size_t slot;
+    size_t si = locate(g, i, local, &slot);
     const Seed &s = seeds()[si];
     const SeedInfo &info = seedInfo(si);
-    const Dev &d = info.devs[local / g.modes];
+    const Dev &d = devOf(g, slot, info, local / g.modes);
     return json{{"seed", s.name}, {"mode", modeOf(g, s, local % g.modes) ? "strict" : "permissive"}, {"deviation", safe(describe(d), 300)}, {"expect_issue", d.why}, {"document", safe(deviate(info, {&d}), 3000)}};
 }
 
@@ -293,6 +316,7 @@ int main(int argc, char **argv)
          [](uint64_t i) { auto &s = seeds()[i / 2]; return json{{"seed", s.name}, {"mode", i % 2 == 0 ? "strict" : "permissive"}, {"document", safe(s.docs[s.mainDoc].text, 3000)}}; }},
         {"dev1_mf", [] { return groupMathFree().total; }, [](uint64_t i, Ctx &c) { runDev1(groupMathFree(), i, c); }, [](uint64_t i) { return showDev1(groupMathFree(), i); }},
         {"dev1_math", [] { return groupMath().total; }, [](uint64_t i, Ctx &c) { runDev1(groupMath(), i, c); }, [](uint64_t i) { return showDev1(groupMath(), i); }},
+        {"dev1_math_q", [] { return groupMathQuick().total; }, [](uint64_t i, Ctx &c) { runDev1(groupMathQuick(), i, c); }, [](uint64_t i) { return showDev1(groupMathQuick(), i); }},
         {"dev2_mf", [] { return groupPairs().total; }, runDev2, showDev2},
     };
     for (auto &gf : genFamilies()) {
